@@ -124,6 +124,19 @@ func (x *Exec) assumptions(st *State) []*Term {
 			out = append(out, t)
 		}
 	}
+	if st.focused {
+		// focused proof state: only the selected facts, later assumptions and definitional axioms
+		for _, t := range st.focus {
+			add(t)
+		}
+		for _, t := range st.pc[st.focusAt:] {
+			add(t)
+		}
+		for _, t := range st.ax {
+			add(t)
+		}
+		return out
+	}
 	work := st
 	if len(x.schemas)+len(st.schemas) > 0 {
 		work = st.fork()
@@ -165,6 +178,9 @@ func (x *Exec) instantiate(st *State) []*Term {
 			for _, c := range cands {
 				total *= len(c)
 			}
+			if os.Getenv("VERIF_DEBUG_INST") != "" {
+				fmt.Printf("inst %s: cands=%v total=%d apps=%d\n", sc.text[:min(len(sc.text), 50)], func() []int { var n []int; for _, c := range cands { n = append(n, len(c)) }; return n }(), total, len(apps))
+			}
 			if total == 0 || total > 400 {
 				continue
 			}
@@ -176,7 +192,12 @@ func (x *Exec) instantiate(st *State) []*Term {
 				}
 				key := sc.text
 				for i := range idx {
-					key += "|" + valueString(cands[i][idx[i]])
+					var fl []*Term
+					flatten(cands[i][idx[i]], &fl)
+					key += "|"
+					for _, t := range fl {
+						key += fmt.Sprintf("%d,", t.id)
+					}
 				}
 				if !x.instSeen(st, key) {
 					if sc.st != nil {
@@ -237,7 +258,16 @@ func (x *Exec) candidates(st *State, apps []appRec, t types.Type) []Value {
 	s, ok := t.Underlying().(*types.Struct)
 	if ok {
 		for _, a := range apps {
-			if !(strings.HasPrefix(a.fn, "Ev_") || a.fn == "evalpt") || len(a.args) != s.NumFields() {
+			if !(strings.HasPrefix(a.fn, "Ev_") || a.fn == "evalpt" || strings.HasPrefix(a.fn, "maphas_")) || len(a.args) != s.NumFields() {
+				continue
+			}
+			sortsOK := true
+			for i, at := range a.args {
+				if fs, ok := sortOf(s.Field(i).Type()); !ok || fs != at.sort {
+					sortsOK = false
+				}
+			}
+			if !sortsOK {
 				continue
 			}
 			el := make([]Value, len(a.args))
@@ -335,7 +365,7 @@ func (x *Exec) applyContract(st *State, fn *ssa.Function, cts []*Contract, args 
 		}
 	}
 	for i := 0; i < res.Len(); i++ {
-		if pure && !isErrorType(res.At(i).Type()) {
+		if pure && !isErrorType(res.At(i).Type()) && ufSupported(res.At(i).Type()) {
 			// pure function of scalar arguments: equal arguments give equal results
 			vals[i] = x.ufResult(st, fmt.Sprintf("ret_%s#%d", sanitize(fn.Name()), i), res.At(i).Type(), flatArgs)
 		} else {
@@ -348,14 +378,18 @@ func (x *Exec) applyContract(st *State, fn *ssa.Function, cts []*Contract, args 
 			env.vars[p.Name()] = args[i]
 		}
 		for _, cl := range ct.requires {
-			if len(cl.vars) > 0 {
-				fail("quantified precondition on modular contract %s", ct.label())
-			}
-			t := x.evalBool(st, env, cl.expr)
+			// quantified preconditions are proved for an arbitrary (skolem) instance
+			x.specMode++
+			t := x.evalClause(st, env, cl)
+			x.specMode--
 			x.oblige(st, fmt.Sprintf("call.%s.pre", fn.Name()), t, "precondition of "+ct.label()+": "+cl.text)
 		}
 		bindResults(env, fn, vals)
 		for _, cl := range ct.ensures {
+			if mentionsEvents(cl.expr) {
+				// postconditions about the callee's own events / proof-script lets describe its body, not a fact the caller can use
+				continue
+			}
 			if len(cl.vars) > 0 {
 				// quantified postcondition: becomes an instantiable schema for the caller
 				x.schemaCtr++
@@ -369,6 +403,20 @@ func (x *Exec) applyContract(st *State, fn *ssa.Function, cts []*Contract, args 
 		}
 	}
 	x.usedModular[fn.String()] = true
+	// the summarised call is an event (arguments by value), so contracts can say which calls happen
+	snap := make([]Value, len(args))
+	for i, a := range args {
+		snap[i] = a
+		if p, ok := a.(*Ptr); ok && p.cell != nil {
+			if cur, ok := st.store[p.cell]; ok {
+				if _, isSym := cur.(*SymArr); !isSym && p.sym == nil {
+					snap[i] = getPath(cur, p.path)
+				}
+			}
+		}
+	}
+	st.log = append(st.log, Event{kind: "call:" + fn.Name(), args: snap, res: vals})
+	st.version++
 	return []Out{{st: st, vals: vals}}
 }
 
@@ -414,6 +462,12 @@ func (x *Exec) verifyContract(ct *Contract) (err error) {
 	freshCtr = map[string]int{}
 	for k, n := range x.freshBase {
 		freshCtr[k] = n
+	}
+	// the application memo must be reset together with the name counters: otherwise a
+	// fresh name could coincide with a variable memoised for a different application
+	ufMemo = map[string]*Term{}
+	for k, t := range x.ufMemoBase {
+		ufMemo[k] = t
 	}
 	x.schemas = nil
 	x.paths = 0
@@ -577,6 +631,10 @@ func (x *Exec) verifyContract(ct *Contract) (err error) {
 				}
 				x.oblige(f.st, "assert."+lbl, t, cl.text)
 				f.st.assume(t)
+				if f.st.labelled == nil {
+					f.st.labelled = map[string]*Term{}
+				}
+				f.st.labelled[lbl] = t
 			}
 			x.specMode--
 		case "use":
@@ -611,6 +669,24 @@ func (x *Exec) verifyContract(ct *Contract) (err error) {
 				f.st.assume(mkImplies(mkAnd(pre...), mkAnd(post...)))
 			}
 			x.specMode--
+		case "focus":
+			for _, f := range finals {
+				var keep []*Term
+				for _, lbl := range strings.Fields(sst.text) {
+					t, ok := f.st.labelled[lbl]
+					if !ok {
+						fail("focus: no asserted fact labelled %q", lbl)
+					}
+					keep = append(keep, t)
+				}
+				f.st.focus = keep
+				f.st.focusAt = len(f.st.pc)
+				f.st.focused = true
+			}
+		case "unfocus":
+			for _, f := range finals {
+				f.st.focused = false
+			}
 		case "generalize":
 			for i := range finals {
 				x.generalize(finals[i].st, finals[i].env, sst.name)
@@ -684,7 +760,7 @@ func (x *Exec) evalLetFork(st *State, env *Env, e Expr) []specOut {
 		if _, bound := env.lookup(id.name); !bound {
 			_, isSpec := x.specs[id.name]
 			switch id.name {
-			case "sq", "abs", "min", "max", "sqrt", "ite", "real", "floor", "len", "old", "pre", "isnil", "sin", "cos", "nsent", "sent", "samecell", "maphas", "mapval", "nev", "evarg", "evbefore", "evres", "merged":
+			case "sq", "abs", "min", "max", "sqrt", "ite", "real", "floor", "len", "old", "pre", "isnil", "sin", "cos", "nsent", "sent", "samecell", "maphas", "mapval", "nev", "evarg", "evbefore", "evres", "merged", "pow2", "nevmatch":
 				isSpec = true
 			}
 			if isSpec {
@@ -1044,4 +1120,65 @@ func replaceTerms(t *Term, m map[int]*Term, cache map[int]*Term) *Term {
 	}
 	cache[t.id] = r
 	return r
+}
+
+// ufSupported: result types that can be produced by an uninterpreted function
+// (scalars and aggregates of scalars).
+func ufSupported(t types.Type) bool {
+	switch u := t.Underlying().(type) {
+	case *types.Basic:
+		_, ok := sortOf(t)
+		return ok
+	case *types.Struct:
+		for i := 0; i < u.NumFields(); i++ {
+			if !ufSupported(u.Field(i).Type()) {
+				return false
+			}
+		}
+		return true
+	case *types.Array:
+		return ufSupported(u.Elem())
+	}
+	return false
+}
+
+// mentionsEvents: does the expression use the ghost-log builtins or a let of the proof script?
+func mentionsEvents(e Expr) bool {
+	found := false
+	var walk func(e Expr)
+	walk = func(e Expr) {
+		switch n := e.(type) {
+		case *ECall:
+			if id, ok := n.fun.(*EIdent); ok {
+				switch id.name {
+				case "nev", "evarg", "evres", "evbefore", "nevmatch", "nsent", "sent":
+					found = true
+				}
+			}
+			walk(n.fun)
+			for _, a := range n.args {
+				walk(a)
+			}
+		case *EIdent:
+			if n.name == "pruned" {
+				found = true
+			}
+		case *ESel:
+			walk(n.x)
+		case *EBin:
+			walk(n.l)
+			walk(n.r)
+		case *EUn:
+			walk(n.x)
+		case *EIndex:
+			walk(n.x)
+			walk(n.i)
+		case *EComp:
+			for _, a := range n.elems {
+				walk(a)
+			}
+		}
+	}
+	walk(e)
+	return found
 }
